@@ -1,0 +1,21 @@
+//go:build verif
+
+/*
+ * Verification hook (build tag `verif`), add-only: lets the /verif harness identify a
+ * recovered panic by its value instead of by message text (property C17).
+ * Nothing in this file is compiled into a normal build.
+ */
+
+package safe
+
+import "errors"
+
+// VerifPanicInfo returns the value a recovered panic carried, if err's Unwrap chain
+// contains an error made by NewPanicErr.
+func VerifPanicInfo(err error) (any, bool) {
+	var pe *panicErr
+	if !errors.As(err, &pe) {
+		return nil, false
+	}
+	return pe.info, true
+}
